@@ -91,7 +91,7 @@ func TestC07(t *testing.T) {
 			return map[string]any{"frame": 0, "rbatch": []int{0, 0, 1, 2}[rnd.Intn(4)], "lazy": rnd.Intn(2) == 0,
 				"skip": rnd.Intn(4) == 0, "promold": rnd.Intn(3) == 0, "samples": rnd.Intn(3) == 0}
 		}
-		genWorldCases(t, rnd, vt.Pick(20, 200), vt.Pick(10, 100), vt.Pick(24, 30), vt.Pick(16, 20), cfg, yield)
+		genWorldCases(t, rnd, vt.Pick(20, 200), vt.Pick(10, 100), vt.Pick(18, 30), vt.Pick(12, 20), cfg, yield)
 	}
 	vt.Run(t, gen, nil, func(c vt.Case) vt.Event {
 		w := decode[aWorld](c["world"])
